@@ -105,6 +105,8 @@ fn main() {
     let scratch = PathBuf::from(format!("/verif/target/scratch/{}", std::process::id()));
     let ctx = Ctx { id: id.clone(), tier, seed, threads, repo_bin, scratch, strict };
     let _ = std::fs::create_dir_all(&ctx.scratch);
+    let case_limit = std::env::var("VERIF_CASE_LIMIT_S").ok().and_then(|s| s.parse::<u64>().ok()).unwrap_or(600);
+    engine::start_watchdog(&ctx.id, std::time::Duration::from_secs(case_limit));
 
     let code = if let Some(path) = replay {
         props::replay(&ctx, &path)
